@@ -126,7 +126,7 @@ func c07Settled(before int) bool {
 		}
 		runtime.Gosched()
 	}
-	limit := 200 * time.Millisecond
+	limit := 2 * time.Second
 	if c07LexerGoroutines > 3 {
 		limit = 3 * time.Millisecond // the process is known to leak: do not wait long for every case
 	}
@@ -349,5 +349,5 @@ func c07Tool(args []string) int {
 }
 
 func init() {
-	register("C07", &Prop{Gen: c07Gen, Run: c07Run, Timeout: 5 * time.Second, Tool: c07Tool})
+	register("C07", &Prop{Gen: c07Gen, Run: c07Run, Timeout: 60 * time.Second, Tool: c07Tool})
 }
